@@ -41,65 +41,6 @@ RULE += (' ' +
          'protocol 47) whose delivered packet objects are looked at again '
          'after the burst; status sessions; frames of 1.5 MiB '
          '(incompressible) and 3 MiB (compressible) in 6 threshold/cipher '
-         'modes. ')
-RULE += (' ' +
-         'Added in later rounds: bursts of n frames through a real '
-         'Connection (also with the five self-parsing clientbound play '
-         'packets in between, with a play-state compression switch at '
-         'protocol 47) whose delivered packet objects are looked at again '
-         'after the burst; status sessions; frames of 1.5 MiB '
-         '(incompressible) and 3 MiB (compressible) in 6 threshold/cipher '
-         'modes. Round 11: the all-zero instance of every registered '
-         'clientbound play class inside bursts at 9 versions; floods of 70 '
-         '000 / 300 000 queued packets (delegated to C11). ')
-RULE += (' ' +
-         'Added in later rounds: bursts of n frames through a real '
-         'Connection (also with the five self-parsing clientbound play '
-         'packets in between, with a play-state compression switch at '
-         'protocol 47) whose delivered packet objects are looked at again '
-         'after the burst; status sessions; frames of 1.5 MiB '
-         '(incompressible) and 3 MiB (compressible) in 6 threshold/cipher '
-         'modes. Round 11: the all-zero instance of every registered '
-         'clientbound play class inside bursts at 9 versions; floods of 70 '
-         '000 / 300 000 queued packets (delegated to C11). Round 12: '
-         'hand-over between the user thread and a listener (delegated to '
-         'C12): A.., B.., C on the wire in the order written. ')
-RULE += (' ' +
-         'Added in later rounds: bursts of n frames through a real '
-         'Connection (also with the five self-parsing clientbound play '
-         'packets in between, with a play-state compression switch at '
-         'protocol 47) whose delivered packet objects are looked at again '
-         'after the burst; status sessions; frames of 1.5 MiB '
-         '(incompressible) and 3 MiB (compressible) in 6 threshold/cipher '
-         'modes. Round 11: the all-zero instance of every registered '
-         'clientbound play class inside bursts at 9 versions; floods of 70 '
-         '000 / 300 000 queued packets (delegated to C11). Round 12: '
-         'hand-over between the user thread and a listener (delegated to '
-         'C12): A.., B.., C on the wire in the order written. Round 13: '
-         'packets with a trailing-bytes field inside bursts got only their '
-         "own frame's bytes. ")
-RULE += (' ' +
-         'Added in later rounds: bursts of n frames through a real '
-         'Connection (also with the five self-parsing clientbound play '
-         'packets in between, with a play-state compression switch at '
-         'protocol 47) whose delivered packet objects are looked at again '
-         'after the burst; status sessions; frames of 1.5 MiB '
-         '(incompressible) and 3 MiB (compressible) in 6 threshold/cipher '
-         'modes. Round 11: the all-zero instance of every registered '
-         'clientbound play class inside bursts at 9 versions; floods of 70 '
-         '000 / 300 000 queued packets (delegated to C11). Round 12: '
-         'hand-over between the user thread and a listener (delegated to '
-         'C12): A.., B.., C on the wire in the order written. Round 13: '
-         'packets with a trailing-bytes field inside bursts got only their '
-         "own frame's bytes. Round 14: status reply frames of every length "
-         "(delegated to C09's sweep). ")
-RULE += (' ' +
-         'Added in later rounds: bursts of n frames through a real '
-         'Connection (also with the five self-parsing clientbound play '
-         'packets in between, with a play-state compression switch at '
-         'protocol 47) whose delivered packet objects are looked at again '
-         'after the burst; status sessions; frames of 1.5 MiB '
-         '(incompressible) and 3 MiB (compressible) in 6 threshold/cipher '
          'modes. Round 11: the all-zero instance of every registered '
          'clientbound play class inside bursts at 9 versions; floods of 70 '
          '000 / 300 000 queued packets (delegated to C11). Round 12: '
